@@ -123,6 +123,8 @@ class Loop(abc.ABC, Generic[_T]):
         try:
             self.loop()
         except Quit:
+            pass
+        finally:
             self.running = False
 
     @abc.abstractmethod
@@ -192,8 +194,10 @@ class SimpleLoop(Loop[World]):
 
         See :meth:`Loop.start` for more details.
         """
-        super().start()
-        self.last_timestamp = None
+        try:
+            super().start()
+        finally:
+            self.last_timestamp = None
 
     def loop(self):
         """Simple main loop.
